@@ -113,12 +113,16 @@ def runCase (c : S) : List String := Id.run do
         match lookup st.runners j with
         | none => st := { st with out := st.out.push "NORUNNER" }
         | some hr =>
+          if hr.ends ≥ 3 then
+            st := { st with out := st.out.push "SKIP" }
+          else
           let cRaw := (a.getD 1 (.atom "0")).toNat
           let choice := if hr.waitingN > 0 then cRaw % hr.waitingN else cRaw
           let (r', res) := hr.r.next env mk prog 100000 choice
           let wn := match res with | .out (.ok (.options _ os)) => os.length | _ => 0
+          let ends := match res with | .out (.ok .ended) => hr.ends + 1 | _ => 0
           let (s, r'') := stateStr r'
-          st := { st with runners := update st.runners j { r := r'', waitingN := wn }, out := st.out.push (showOut res ++ s) }
+          st := { st with runners := update st.runners j { r := r'', waitingN := wn, ends := ends }, out := st.out.push (showOut res ++ s) }
       | "snap" =>
         match lookup st.runners j with
         | none => st := { st with out := st.out.push "NORUNNER" }
